@@ -472,6 +472,27 @@ class VersionFallback(Harness):
         yield 'no-report', not obs['alg']
 
 
+def first_packet_type(conn):
+    """type of the first binary packet the tool sent on a scripted connection (after its identification line), or None if it sent none / the bytes are not
+    concrete; -1 if the packet is not framed per RFC 4253 section 6"""
+    data = b''
+    for d in getattr(conn, 'sent', []):
+        if not isinstance(d, (bytes, bytearray)):
+            return None
+        data += bytes(d)
+    i = data.find(b'\n')
+    if i < 0 or not data.startswith(b'SSH-'):
+        return None if not data else -1
+    rest = data[i + 1:]
+    if len(rest) < 6:
+        return None if not rest else -1
+    ln = int.from_bytes(rest[:4], 'big')
+    pad = rest[4]
+    if (ln + 4) % 8 or pad < 4 or ln < pad + 2 or len(rest) < ln + 4:
+        return -1
+    return rest[5]
+
+
 class AuditProbe(Harness):
     """real audit() with a well-formed first connection; the probe connections misbehave (arbitrary reply packet).  The audit must
     still end with a complete algorithm report and a status from {0,2,3}."""
@@ -547,13 +568,15 @@ class AuditProbe(Harness):
         with AE.patched(M.kexdh, random=Rnd):
             r = AE.run_audit(M, conns)
         nets = r['net'].made
-        return {'ret': r['ret'], 'alg': has_alg_lines(r['lines']), 'nconn': len(nets), 'allclosed': all(c.closed or c.shut for c in nets)}
+        return {'ret': r['ret'], 'alg': has_alg_lines(r['lines']), 'nconn': len(nets), 'allclosed': all(c.closed or c.shut for c in nets), 'first_sent': [first_packet_type(c) for c in nets]}
 
     def check(self, inp, obs):
         st = status_of(obs['ret'])
         yield 'documented-status', st is not None
         if st is not None:
             yield 'report-complete-after-probe-misbehaviour', obs['alg'] and st in (0, 2, 3)
+        # on every connection the first thing the tool sends after its identification string is a well-framed KEXINIT (nothing left over from an earlier, failed exchange)
+        yield 'every-connection-starts-with-a-well-framed-kexinit', all(t in (None, 20) for t in obs['first_sent'])
 
     def classify(self, inp, obs, label):
         r = obs['ret']
